@@ -365,3 +365,31 @@ Proof.
   split; [exact (proj1 glue_ex_hyps)|]. split; [exact (proj2 glue_ex_hyps)|].
   split; [vm_compute; reflexivity|]. eexists. split; [vm_compute; reflexivity|]. vm_compute. auto.
 Qed.
+
+(* ------------------------------------------------------------------ *)
+(* `toasty cascade` (cli.cascade_impl), tied by TRANSLATION: Generated/CliCascadeSrc.v is the
+   decision tree of the function -- the tests it makes on its settings, the calls it makes on each
+   path -- produced from toasty/cli.py in /repo's working tree on every build.  Under every
+   valuation of the settings it behaves like the hand-written model (Model/CliScript.v), in which
+   --format, --start and --parallelism reach cascade_images (the format in particular: the
+   cascade reads and writes the format the user named, not one guessed from the directory).
+   Proofs in Proofs/CliCascadeP.v. *)
+From Coq Require Import String.
+From Toasty Require Import Model.SrcPrelude Model.CliScript Generated.CliCascadeSrc Proofs.CliCascadeP.
+
+Theorem src_cascade_command_is_model :
+  forall (is_none : sval unit -> bool) (eq_lit : sval unit -> string -> bool),
+  run_tree is_none eq_lit src_cli_cascade_impl = cascade_impl_model is_none.
+Proof. exact src_cascade_impl_eq. Qed.
+Print Assumptions src_cascade_command_is_model.
+
+Theorem cascade_command_plumbing :
+  forall is_none : sval unit -> bool,
+  (is_none (setting "start") = false ->
+   exists e, cascade_impl_model is_none = (true, [e]) /\
+             call_pos e = [pyramid_at (setting "pyramid_dir") [("default_format"%string, setting "format")];
+                           setting "start"; SName "averaging_merger"] /\
+             call_kw "parallel" e = Some (setting "parallelism")) /\
+  (is_none (setting "start") = true -> cascade_impl_model is_none = (false, [])).
+Proof. intros is_none. split; [apply cascade_plumbing|apply cascade_dies_without_start]. Qed.
+Print Assumptions cascade_command_plumbing.
